@@ -311,6 +311,11 @@ func init() {
 		Run: func(c *Ctx, scope string, r *Report) {
 			// ---- per-document loop in mergeStoredAndRemapSegment
 			segFn := c.MustFn("mergeStoredAndRemapSegment")
+			type segPlaceInfo struct {
+				pl ctrPlace
+				pi int
+			}
+			var segPlace *segPlaceInfo
 			table := ssa.Value(segFn.Params[2])
 			counterParam := ssa.Value(segFn.Params[3])
 			var hdr *ssa.BasicBlock
@@ -342,7 +347,54 @@ func init() {
 						}
 					}
 				}
-				if docNum == nil || counter == nil {
+				if docNum != nil && counter == nil {
+					// the running counter may be a field of a cursor struct handed in by pointer
+					body := loopBody(hdr)
+					for b := range body {
+						for _, st := range storesIntoSlice(b, table) {
+							if pl, ok := placeOfLoad(st.Val); ok {
+								if prm, isParam := pl.root.(*ssa.Parameter); isParam {
+									for i, q := range segFn.Params {
+										if q == prm {
+											segPlace = &segPlaceInfo{pl, i}
+										}
+									}
+								}
+							}
+						}
+					}
+				}
+				if docNum != nil && counter == nil && segPlace != nil {
+					okIdx := false
+					for i, e := range docNum.Edges {
+						if hdr.Dominates(hdr.Preds[i]) {
+							okIdx = isPlusOne(e, docNum)
+						}
+					}
+					body := loopBody(hdr)
+					outside := ""
+					for _, b := range segFn.Blocks {
+						if !body[b] && touchesPlace(b, segPlace.pl) {
+							outside = c.pos(b.Instrs[0].Pos())
+						}
+					}
+					np, bad, und := placeIterCheck(c, segFn, hdr, table, docNum, segPlace.pl, segFn.Params[1])
+					at := c.pos(hdr.Instrs[0].Pos())
+					switch {
+					case und != "":
+						r.undecided(key, fnName(segFn), at, und)
+					case bad != "":
+						r.bad(key, fnName(segFn), at, bad)
+					case !okIdx:
+						r.bad(key, fnName(segFn), at, "the document index does not advance by one per iteration")
+					case outside != "":
+						r.bad(key, fnName(segFn), outside, "the running counter (a field of the cursor) is modified outside the per-document loop")
+					case np == 0:
+						r.undecided(key, fnName(segFn), at, "no path through the loop body found")
+					default:
+						r.ok(key, fnName(segFn), at, fmt.Sprintf("%d paths through the per-document loop: each stores exactly once (sentinel on the drops edge / the cursor's counter %s, +1)", np, segPlace.pl.field))
+					}
+				} else if docNum == nil || counter == nil {
 					r.undecided(key, fnName(segFn), c.pos(hdr.Instrs[0].Pos()), "cannot identify the document index / running counter of the loop")
 				} else {
 					// docNum: 0, +1
@@ -509,6 +561,94 @@ func init() {
 			}
 			threadOK := counter != nil
 			threadWhy := "running counter phi not found in the per-segment loop header"
+			// place form: the counter is a field of a cursor struct that lives across the loop
+			var fnPlace *ctrPlace
+			if counter == nil && segPlace != nil {
+				var root ssa.Value
+				same := true
+				for b := range body {
+					for _, ins := range b.Instrs {
+						if call, ok := ins.(*ssa.Call); ok && call.Call.StaticCallee() == segFn && segPlace.pi < len(call.Call.Args) {
+							a := call.Call.Args[segPlace.pi]
+							if root != nil && root != a {
+								same = false
+							}
+							root = a
+						}
+					}
+				}
+				if al, ok := root.(*ssa.Alloc); ok && same && !body[al.Block()] {
+					fnPlace = &ctrPlace{root, segPlace.pl.field}
+					threadOK, threadWhy = true, ""
+					for _, b := range fn.Blocks {
+						for _, ins := range b.Instrs {
+							switch x := ins.(type) {
+							case *ssa.Store:
+								if x.Addr == root {
+									threadOK, threadWhy = false, "the cursor is overwritten as a whole at "+c.pos(x.Pos())+": the initial value of its counter is not visible"
+								}
+								if !fnPlace.isAddr(x.Addr) {
+									continue
+								}
+								if !body[b] {
+									if k, ok := constInt(x.Val); !ok || k != 0 {
+										threadOK, threadWhy = false, "the running counter does not start at 0"
+									}
+									continue
+								}
+								inFill := false
+								for h := b; h != nil; h = h.Idom() {
+									if h != segHdr && isLoopHeader(h) && loopBody(h)[b] && placeFillLoop(c, fn, h, tableMk, *fnPlace, false) {
+										inFill = true
+									}
+								}
+								if !inFill {
+									threadOK, threadWhy = false, "the running counter is modified at "+c.pos(x.Pos())+", outside a fill of this segment's table"
+								}
+							case *ssa.Call:
+								callee := x.Call.StaticCallee()
+								pi := -1
+								for j, a := range x.Call.Args {
+									if a == root {
+										pi = j
+									}
+								}
+								if pi < 0 || callee == segFn {
+									continue
+								}
+								if callee == nil || callee.Blocks == nil {
+									threadOK, threadWhy = false, "the cursor is handed to a call that cannot be followed at "+c.pos(x.Pos())
+									continue
+								}
+								if body[b] {
+									if tp := placeFiller(c, callee, pi, fnPlace.field); tp != nil && argFor(&x.Call, tp) == ssa.Value(tableMk) {
+										fillCall[b] = true
+										continue
+									}
+								}
+								eff := c.placeEffect(callee, pi, fnPlace.field, 1)
+								if !eff.known {
+									threadOK, threadWhy = false, fnName(callee)+": "+eff.why
+									continue
+								}
+								for _, set := range []map[int]bool{eff.ok, eff.err} {
+									for d := range set {
+										if d != 0 {
+											threadOK, threadWhy = false, fnName(callee)+" advances the running counter outside a fill of this segment's table"
+										}
+									}
+								}
+							case *ssa.MakeClosure:
+								for _, bv := range x.Bindings {
+									if bv == root {
+										threadOK, threadWhy = false, "the cursor is captured by a closure at "+c.pos(x.Pos())
+									}
+								}
+							}
+						}
+					}
+				}
+			}
 			for b := range body {
 				for _, ins := range b.Instrs {
 					if call, ok := ins.(*ssa.Call); ok && call.Call.StaticCallee() != nil && call.Call.StaticCallee() != segFn {
@@ -528,7 +668,11 @@ func init() {
 						}
 					}
 				}
-				if b != segHdr && isLoopHeader(b) {
+				if b != segHdr && isLoopHeader(b) && fnPlace != nil {
+					if placeFillLoop(c, fn, b, tableMk, *fnPlace, false) {
+						fillLoop[b] = true
+					}
+				} else if b != segHdr && isLoopHeader(b) {
 					// inner fill loop: stores table[i] = counter', i from 0 step 1 while i < numDocs
 					if isFillLoop(b, tableMk, func(v ssa.Value) bool { return counter == nil || v == ssa.Value(counter) }) != nil {
 						fillLoop[b] = true
@@ -551,34 +695,45 @@ func init() {
 						}
 						continue
 					}
-					switch x := e.(type) {
-					case *ssa.Phi:
-						if !fillLoop[x.Block()] {
-							threadOK, threadWhy = false, "the counter reaching the next segment does not come from the fill loop"
-						}
-					case *ssa.Extract:
-						call, ok := x.Tuple.(*ssa.Call)
-						if ok && len(offsetFill) > 0 && call.Call.StaticCallee() != nil && call.Call.StaticCallee() != segFn && x.Index == 0 {
-							// the table was filled as counter+i; the next number comes back from the function
-							// that numbers the copied documents from the counter on
-							cp := paramOfType(call.Call.StaticCallee(), "uint64")
-							if cp == nil || argFor(&call.Call, cp) != ssa.Value(counter) {
-								threadOK, threadWhy = false, fnName(call.Call.StaticCallee())+" is not given the running counter"
-							} else if why := returnsAdvanced(call.Call.StaticCallee(), cp); why != "" {
-								threadOK, threadWhy = false, why
+					var checkBack func(e ssa.Value, depth int)
+					checkBack = func(e ssa.Value, depth int) {
+						switch x := e.(type) {
+						case *ssa.Phi:
+							if !fillLoop[x.Block()] {
+								// the join of the two ways of filling the table (if/else instead of `continue`)
+								if depth < 4 && !isLoopHeader(x.Block()) && body[x.Block()] {
+									for _, pe := range x.Edges {
+										checkBack(pe, depth+1)
+									}
+									return
+								}
+								threadOK, threadWhy = false, "the counter reaching the next segment does not come from the fill loop"
 							}
-							break
+						case *ssa.Extract:
+							call, ok := x.Tuple.(*ssa.Call)
+							if ok && len(offsetFill) > 0 && call.Call.StaticCallee() != nil && call.Call.StaticCallee() != segFn && x.Index == 0 {
+								// the table was filled as counter+i; the next number comes back from the function
+								// that numbers the copied documents from the counter on
+								cp := paramOfType(call.Call.StaticCallee(), "uint64")
+								if cp == nil || argFor(&call.Call, cp) != ssa.Value(counter) {
+									threadOK, threadWhy = false, fnName(call.Call.StaticCallee())+" is not given the running counter"
+								} else if why := returnsAdvanced(call.Call.StaticCallee(), cp); why != "" {
+									threadOK, threadWhy = false, why
+								}
+								break
+							}
+							if !ok || call.Call.StaticCallee() != segFn || x.Index != 0 {
+								threadOK, threadWhy = false, "the counter reaching the next segment is not the result of mergeStoredAndRemapSegment"
+							}
+						case *ssa.Call:
+							if !fillerCalls[x] {
+								threadOK, threadWhy = false, "the counter reaching the next segment is the result of "+x.String()+", not of a fill of this segment's table"
+							}
+						default:
+							threadOK, threadWhy = false, "the counter reaching the next segment is "+e.String()
 						}
-						if !ok || call.Call.StaticCallee() != segFn || x.Index != 0 {
-							threadOK, threadWhy = false, "the counter reaching the next segment is not the result of mergeStoredAndRemapSegment"
-						}
-					case *ssa.Call:
-						if !fillerCalls[x] {
-							threadOK, threadWhy = false, "the counter reaching the next segment is the result of "+x.String()+", not of a fill of this segment's table"
-						}
-					default:
-						threadOK, threadWhy = false, "the counter reaching the next segment is "+e.String()
 					}
+					checkBack(e, 0)
 				}
 			}
 			paths, complete := iterPaths(segHdr, segHdr.Succs[0], body, 4000)
